@@ -1037,6 +1037,41 @@ class FnCtx:
                 else:
                     out.append(({la: -1}, 1))
             return out
+        if d[0] == "discr" and not other and len(vals) == 1:
+            # a Result / Option that is a join of constructors (an inlined helper's `return Err(..)` / `Ok(..)`): taking the
+            # Ok edge means control came through the predecessor that built the Ok, so whatever held there holds here
+            x = d[1]
+            want = None
+            if x[0] == "call" and isinstance(x[1], str) and x[1].endswith("::branch") and len(x[2]) == 1:
+                want = ("Ok", "Some") if vals[0] == 0 else ("Err", "None")
+                x = x[2][0]
+            elif x[0] == "phi":
+                ty = self.ft.tyof(x) or ""
+                if ty.startswith("std::result::Result<"):
+                    want = ("Ok",) if vals[0] == 0 else ("Err",)
+                elif ty.startswith("std::option::Option<"):
+                    want = ("None",) if vals[0] == 0 else ("Some",)
+            if want is not None and x[0] == "phi" and x[1] == self.path:
+                ops = self.ft.phi_operands(x)
+                match, unknown = [], False
+                for p_, o in ops.items():
+                    if o[0] == "agg" and o[1] == "adt" and o[2].rsplit("::", 1)[-1] in ("Ok", "Err", "Some", "None"):
+                        if o[2].rsplit("::", 1)[-1] in want:
+                            match.append(p_)
+                    elif o[0] == "call" and isinstance(o[1], str) and o[1].endswith("::from_residual"):
+                        if "Err" in want or "None" in want:
+                            match.append(p_)
+                    else:
+                        unknown = True
+                if len(match) == 1 and not unknown and match[0] != sb:
+                    guard = self.__dict__.setdefault("_join_guard", set())
+                    if match[0] not in guard:
+                        guard.add(match[0])
+                        try:
+                            out += list(self.facts_at(match[0]))
+                        finally:
+                            guard.discard(match[0])
+                    return out
         if d[0] == "discr" and d[1][0] == "call" and isinstance(d[1][1], str) and d[1][1].endswith("::next") and vals == [1] and not other:
             # Some(item) came out of a forward iterator over a vector / slice: the collection is not empty, and an
             # enumerate() index is smaller than its length
@@ -1625,6 +1660,13 @@ class FnCtx:
                 return self.eng.summary(path, ())
             return self.top_for(t)
         if tag == "static":
+            # an immutable plain-data static: its compile-time value (the facts loader lists it among the constants)
+            cst = self.facts.consts.get(t[1])
+            if cst is not None and cst.get("from_static"):
+                from .consts import pyval
+                v = pyval(cst["value"])
+                if v is not None:
+                    return R(self.av_of_py(v))
             return R(TOP)
         if tag in ("escaped", "unknown", "uninit"):
             if tag == "escaped":
@@ -1966,6 +2008,21 @@ class FnCtx:
 
     def iter_item(self, next_call, at, edge):
         """(abstract value of the item, facts about it) for `Some(item) = it.next()`"""
+        src0 = iter_source(self.ft, next_call[2][0])
+        if src0 is not None:
+            z = peel(src0)
+            while z[0] == "call" and isinstance(z[1], str) and z[2] and z[1].split("::")[-1] in ("into_iter", "by_ref"):
+                z = peel(z[2][0])
+            if z[0] == "call" and isinstance(z[1], str) and z[1].endswith("::zip") and len(z[2]) == 2:
+                # a.zip(b): pairs of the two item streams
+                ity = self.ft.tyof(("payload", "Some", next_call)) or ""
+                parts = split_generics("T<" + ity[1:-1] + ">")[1] if ity.startswith("(") and ity.endswith(")") else [None, None]
+                comp = []
+                for k_, sub in enumerate(z[2]):
+                    fake = ("call", next_call[1], (sub,), None)
+                    v_ = self._item_from_source(sub, parts[k_] if k_ < len(parts) else None)
+                    comp.append(v_)
+                return S({"0": comp[0], "1": comp[1]}), []
         ad, base = self.iter_chain(next_call)
         top = top_of_type(self.ft.tyof(("payload", "Some", next_call)), self.facts)
         if ad is None:
@@ -1991,6 +2048,8 @@ class FnCtx:
         bav = self.av(base, None)
         if bav[0] == "r":
             bav = bav[1]
+        if bav[0] == "b":
+            return BOT, []       # the collection has no value yet in this fixpoint round: neither has its item
         elem = bav[2] if bav[0] == "v" else TOP
         byref = "byref" in ad or (item_ty or "").startswith("&") or (item_ty or "").startswith("(usize, &")
         if "copied" in ad or "cloned" in ad:
@@ -2012,6 +2071,45 @@ class FnCtx:
             second = ev if ev is not None else (sget(top, "1") or TOP)
             return S({"0": idx, "1": second}), []
         return (ev if ev is not None else top), []
+
+    def _item_from_source(self, src, item_ty):
+        """item value of a plain iterator expression (range or collection through iter/into_iter/copied/rev), by its
+        declared item type when nothing better is known"""
+        top = top_of_type(item_ty, self.facts) if item_ty else TOP
+        x = peel(src)
+        byref = False
+        copied = False
+        for _ in range(10):
+            if x[0] == "call" and isinstance(x[1], str) and x[2]:
+                short = x[1].split("::")[-1]
+                if short in ("into_iter", "rev", "by_ref"):
+                    x = peel(x[2][0])
+                    continue
+                if short in ("iter", "iter_mut"):
+                    byref = True
+                    x = peel(x[2][0])
+                    continue
+                if short in ("copied", "cloned"):
+                    copied = True
+                    x = peel(x[2][0])
+                    continue
+            break
+        if x[0] == "agg" and x[2].startswith("std::ops::Range::") and len(x[3]) == 2:
+            lo, hi = self.av(x[3][0], None), self.av(x[3][1], None)
+            if lo[0] == "i" and hi[0] == "i":
+                return I(lo[1], hi[2] - 1)
+            return top
+        bav = self.av(x, None)
+        if bav[0] == "r":
+            bav = bav[1]
+            byref = True
+        if bav[0] == "b":
+            return BOT
+        if bav[0] != "v" or bav[2][0] == "t":
+            return top
+        if (item_ty or "").startswith("&"):
+            byref = True
+        return R(bav[2]) if (byref and not copied) else bav[2]
 
     def item_facts(self, at):
         """relational facts about loop items visible at block `at`: for `for x in a..b`: a <= x < b; for enumerate: idx < len"""
